@@ -17,11 +17,14 @@ Binding: Gen_MetricsQuery exports (a) scenarios = series set + value grid + ever
 import json
 import os
 import random
+import signal
+import threading
 import time
 
 import vlib
 
 LEVEL = "model_checking"
+CLAIMED = True
 
 MANIFEST = dict(
     category="model_checking",
@@ -242,6 +245,28 @@ def run_case(binary, case):
     fails, classes = [], set()
     nrun = [0]
     dr = None
+    errlog = os.path.join(d, "stderr.log")
+    cur = {"q": None, "stage": None, "dumped": False}
+
+    def mquery(**kw):
+        """mquery with a goroutine dump (SIGQUIT) if the engine has not answered after 60 s: a query that normally
+        takes ~10 ms and stalls for a minute is worth a look even if the final classification is 'machine load'"""
+        cur["q"] = kw.get("promql")
+        proc = dr.p
+
+        def dump():
+            cur["dumped"] = True
+            try:
+                proc.send_signal(signal.SIGQUIT)
+            except Exception:
+                pass
+        tm = threading.Timer(60, dump)
+        tm.start()
+        try:
+            return dr.ok("mquery", **kw)
+        finally:
+            tm.cancel()
+
     ts_of = {t: T0 + t * step for t in range(nt)}
     grid_ts = {v: k for k, v in ts_of.items()}
     ingested = set()
@@ -263,13 +288,21 @@ def run_case(binary, case):
     def complete_ts():
         return [t for t in range(nt) if all((i, t) in ingested for i in range(len(series)))]
 
+    sized = [False]     # a size-driven segment rotation happened in this process life
+
     def check(stage, kind, qs, collect=None, window="full"):
+        if sized[0]:
+            # Once a tags-tree base directory has a rotated segment, queries read the tags trees from disk; series that are
+            # new since then become visible with the next tags-tree flush (timeBasedTagsTreeFlush, every 60 s).  Like the 5 s
+            # metadata refresh this is the engine's visibility period, not a wrong answer: run one timer iteration.
+            dr.ok("mtagsflush")
         start, end, wts = windows[window]
         tl = [t for t in complete_ts() if t in wts]
         seen_ts = {ts: t for ts, t in grid_ts.items() if any((i, t) in ingested for i in range(len(series)))}
         out = []
         for q in qs:
-            res = dr.ok("mquery", promql=q["text"], start=start, end=end, step=step)
+            cur["stage"] = stage
+            res = mquery(promql=q["text"], start=start, end=end, step=step)
             nrun[0] += 1
             cls = query_class(q["ast"], nkeys)
             bad = compare(q, res, tl, ts_of, seen_ts)
@@ -289,11 +322,25 @@ def run_case(binary, case):
             fails.extend(out)
         return out
 
+    def all_visible():
+        dr.ok("mtagsflush")
+        for name in sorted(set(x["name"] for x in series)):
+            res = dr.ok("mquery", promql=name, start=T0 - step, end=T0 + (nt + 1) * step, step=step)
+            got = set()
+            for gid, pts in res.get("series", {}).items():
+                nm, labels = parse_gid(gid)
+                for p in pts:
+                    got.add((nm, lkey(labels), p[0]))
+            for (i, t) in ingested:
+                if series[i]["name"] == name and (name, lkey(series[i]["labels"]), ts_of[t]) not in got:
+                    return False
+        return True
+
     def subset(n):
         return runnable if len(runnable) <= n else rnd.sample(runnable, n)
 
     try:
-        dr = vlib.Driver(binary, env=env)
+        dr = vlib.Driver(binary, env=env, stderr_path=errlog)
         dr.ok("init", dir=d)
         pending = []
         nstage = 0
@@ -309,20 +356,22 @@ def run_case(binary, case):
                 check("after-blockflush-%d" % nstage, "flushed", subset(case["nsub"]))
             elif a["a"] == "segrotate":
                 dr.ok("msizerotate", block_bytes=1, seg_bytes=1)
-                # the rotated segment becomes query-visible through the 5 s metadata refresh loop: poll a probe
-                probe = [q for q in runnable if q["ast"]["kind"] == "vec"][:6]
-                t_end = time.time() + 25
-                while True:
-                    tmp = []
-                    if not check("after-segrotate-%d" % nstage, "segrotated", probe, collect=tmp) or time.time() > t_end:
-                        break
+                sized[0] = True
+                # the rotated segment becomes query-visible through the 5 s metadata refresh loop: poll until every
+                # ingested sample is returned by the plain selector of its metric (40 s without success is an infrastructure error: timing dependent)
+                t_end = time.time() + 40
+                while not all_visible():
+                    if time.time() > t_end:
+                        # timing dependent (5 s refresh loop on a possibly overloaded machine): never a verdict
+                        raise vlib.Infra("size-rotated metrics segment not query-visible 40 s after the rotation (machine load?)")
                     time.sleep(0.5)
                 check("after-segrotate-%d" % nstage, "segrotated", subset(case["nsub"]))
             elif a["a"] == "restart":
                 dr.ok("mrotate")
                 dr.quit()
-                dr = vlib.Driver(binary, env=env)
+                dr = vlib.Driver(binary, env=env, stderr_path=errlog)
                 dr.ok("init", dir=d, wait_ms=400)
+                sized[0] = False
                 check("after-restart-%d" % nstage, "restarted", subset(case["nsub"]))
         put(pending)
         full = runnable if case["full"] else subset(case["nsub"] * 2)
@@ -330,13 +379,21 @@ def run_case(binary, case):
         check("final-open-tight", "open", subset(max(8, case["nsub"] // 3)), window="tight")
         dr.ok("mrotate")
         dr.quit()
-        dr = vlib.Driver(binary, env=env)
+        dr = vlib.Driver(binary, env=env, stderr_path=errlog)
         dr.ok("init", dir=d, wait_ms=400)
+        sized[0] = False
         check("final-rotated", "rotated", full)
         check("final-rotated-tight", "rotated", subset(max(8, case["nsub"] // 3)), window="tight")
     except vlib.DriverDead as e:
-        if e.kind == "hang":
-            raise vlib.Infra("engine did not answer in time (machine load?): %s" % e)
+        if e.kind == "hang" or cur["dumped"]:
+            keep = os.path.join(vlib.SCRATCH_ROOT, "c09-stall-%d.log" % case["idx"])
+            try:
+                with open(errlog, "rb") as f:
+                    open(keep, "wb").write(f.read()[-400000:])
+            except OSError:
+                keep = "(no stderr)"
+            raise vlib.Infra("engine did not answer a query within 60 s (machine load?): case %d, stage %s, query %r, layout %s; goroutine dump in %s" % (
+                case["idx"], cur["stage"], cur["q"], [a["a"] for a in hist if a["a"] != "ingest"], keep))
         fails.append(("C09:%s:driver-died" % univ, "engine process died during a metrics scenario: %s" % e, "", "?"))
     finally:
         if dr is not None:
@@ -381,7 +438,7 @@ def run(chk):
 
 def run_binding(chk, quick):
     # ---- behaviours
-    modH, modX, modS, modD = (37, 7, 5, 5) if quick else (5, 2, 1, 1)
+    modH, modX, modS, modD = (37, 1, 1, 1) if quick else (5, 1, 1, 1)      # the small universes are emitted completely
     scenH, gh = tlc_generate_pick("Gen_MetricsQuery_scenH.cfg", chk.seed, modH)
     scenX, gx = tlc_generate_pick("Gen_MetricsQuery_scenX.cfg", chk.seed, modX)
     scenS, gs = tlc_generate_pick("Gen_MetricsQuery_scenS.cfg", chk.seed, modS)
@@ -396,7 +453,7 @@ def run_binding(chk, quick):
         raise vlib.Infra("no behaviours generated (H=%d X=%d S=%d layouts=%d)" % (len(scenH), len(scenX), len(scenS), len(lays)))
 
     rnd = random.Random(chk.seed)
-    nH, nX, nS, nD = (22, 6, 4, 3) if quick else (260, 40, 20, 12)
+    nH, nX, nS, nD = (18, 6, 4, 3) if quick else (260, 40, 20, 12)
     lay_by_n = {}
     for l in lays:
         lay_by_n.setdefault(l["n"], []).append(l)
@@ -412,7 +469,7 @@ def run_binding(chk, quick):
 
     cases = []
     idx = 0
-    for univ, scens, n, nsub in (("H", scenH, nH, 60 if quick else 120), ("X", scenX, nX, 40), ("S", scenS, nS, 40),
+    for univ, scens, n, nsub in (("H", scenH, nH, 48 if quick else 120), ("X", scenX, nX, 40), ("S", scenS, nS, 40),
                                   ("D", scenD, nD, 40)):
         scens = sorted(scens, key=lambda s: json.dumps(s["idx"]) + s["grid"])
         chosen = vlib.sample(scens, n, chk.seed * 31 + len(univ))
@@ -440,6 +497,7 @@ def run_binding(chk, quick):
             occurrences[key] = occurrences.get(key, 0) + 1
             if key not in first:
                 first[key] = (detail, slim_case(c, qtext))
+    chk.cov["all_violation_keys"] = dict(sorted(occurrences.items()))
     for key in sorted(first):       # one violation per signature, with the first (smallest case index) reproduction
         detail, rep = first[key]
         chk.violation(key, "%s  (%d occurrences in this run)" % (detail, occurrences[key]), rep)
@@ -456,7 +514,9 @@ def run_binding(chk, quick):
         "result identity: plain selectors by (metric name, label set); aggregations, scalar and vector arithmetic by label set only "
         "(the statement does not fix the metric name of derived vectors); on()/ignoring() one-to-one results by their match key",
         "queries whose vector matching is not well defined (duplicate match keys on a 'one' side) are not run",
-        "a size-rotated segment is allowed the engine's metadata refresh period (polled up to 25 s) before it must be visible",
+        "a size-rotated segment is allowed the engine's metadata refresh period (polled up to 40 s, then exit 2) before it must be visible; after a "
+        "size rotation every check is preceded by one iteration of the 60 s tags-tree flush timer (series that are new since the rotation "
+        "are invisible until then - bounded staleness, reported in docs/C09.md as an observation, not a violation)",
     ]
     chk.describe(rule="TLC enumerates scenarios (3-4 series over {m,n} x a in {x,y,xy} x b in {p,q}; 3 value grids; ~380 queries each) and layout "
                     "histories (2 ingest orders x positions of <= MaxOps BlockFlush/SegRotate/Restart); a VERIF_SEED-selected set of "
